@@ -74,7 +74,7 @@ func runC11(rc *RunCtx) {
 	w := ms.W
 	tgtIP := net.IPv4(93, 184, 216, 34).To4()
 	// echo targets
-	startTarget(w, tgtIP, 7000, func(tc *targetConn) {
+	echoTarget := func(tc *targetConn) {
 		buf := make([]byte, 8192)
 		for {
 			n, err := tc.C.Read(buf)
@@ -86,7 +86,8 @@ func runC11(rc *RunCtx) {
 			}
 		}
 		tc.C.Close()
-	})
+	}
+	startTarget(w, tgtIP, 7000, echoTarget)
 	utgt, _ := w.BindUDP(&net.UDPAddr{IP: tgtIP, Port: 7001})
 	simrt.GoDaemon("c11-udp-target", func() {
 		buf := make([]byte, 2048)
@@ -236,6 +237,9 @@ func runC11(rc *RunCtx) {
 		}
 		shots = append(shots, s)
 		i := i
+		if s.tcp {
+			startTarget(w, tgtIP, 7200+i, echoTarget)
+		}
 		j := jitter(G)
 		delay := time.Duration(G.Draw(6)) * time.Millisecond
 		simrt.GoNamed(fmt.Sprintf("c11-shot-%d", i), func() {
@@ -251,7 +255,7 @@ func runC11(rc *RunCtx) {
 				}
 				s.c = cc
 				enc := newEncoder(s.key)
-				enc.Lazy(socksAddr(fmt.Sprintf("%s:7000", tgtIP)))
+				enc.Lazy(socksAddr(fmt.Sprintf("%s:%d", tgtIP, 7200+i)))
 				cc.Write(enc.Chunk(s.msg))
 				rd := shadowsocks.NewReader(cc, s.key.EK)
 				buf := make([]byte, len(s.msg))
@@ -356,9 +360,16 @@ func runC11(rc *RunCtx) {
 				rc.Failf("not-handled-exactly-once", "connection %d to retained address %s: %d open reports, %d close reports (handled by no generation or by two)", i, s.addr, len(recs), n)
 				continue
 			}
-			if st := recs[0].first("closed").Status; st == "ERR_CONNECT" && recs[0].first("auth") != nil {
+			dialedTarget := false
+			for _, d := range w.Dials {
+				if d.Port == 7200+i {
+					dialedTarget = true
+				}
+			}
+			if recs[0].first("auth") != nil && !dialedTarget {
 				// accepted and authenticated by the generation that was being stopped; its
-				// dial was cancelled with that generation's context before it was relaying
+				// dial was cancelled with that generation's context before it reached the
+				// network, i.e. before it was relaying
 				rc.Probe("dial_cancelled_by_stopping_generation")
 				continue
 			}
@@ -398,11 +409,6 @@ func runC11(rc *RunCtx) {
 		}
 		if !bytes.Equal(r.got, r.sent) {
 			rc.Failf("relay-interrupted", "long-lived relay %d (kind %d) echoed %d of %d bytes (err %v)", i, r.kind, len(r.got), len(r.sent), r.err)
-		}
-		for _, x := range ms.M.tcpFor(r.c.Rec.ID) {
-			if cl := x.first("closed"); cl != nil && cl.Status != "OK" {
-				rc.Failf("relay-status:"+cl.Status, "long-lived relay %d ended with status %s", i, cl.Status)
-			}
 		}
 	}
 	rc.Phase = "stop"
